@@ -756,3 +756,14 @@ Example parse_ser_entry_ex : exists e e',
   parse_entry ex_normal_chunks = Ok e /\ parse_entry (ser_entry e) = Ok e' /\
   ser_entry e' = ser_entry e /\ extra_of e' = [mk (T "zzZz") [x01; x02]].
 Proof. eexists. eexists. split; [vm_compute; reflexivity|]. split; [vm_compute; reflexivity|]. split; vm_compute; reflexivity. Qed.
+
+Example compressed_size_sum_ex : exists e,
+  parse_normal ex_normal_chunks = Ok e /\ m_compressed (n_meta e) = 3 /\ n_data e = [[xaa]; []; [xbb; xcc]].
+Proof. eexists. split; [vm_compute; reflexivity|]. split; reflexivity. Qed.
+
+(* a whole archive: written raw, read structured *)
+Example entries_ex : exists n s,
+  entries read_chunk_stream (write_raw_archive 0 [ex_normal_chunks; [mk SHED [x00; x00; x00; x00; x00]; mk SDAT []; mk SEND []]])
+    = Ok ([RNormal n; RSolid s], FinOk) /\
+  f_name (n_hdr n) = lit "dir/file" /\ so_data s = [[]].
+Proof. eexists. eexists. split; [vm_compute; reflexivity|]. split; reflexivity. Qed.
